@@ -51,6 +51,7 @@ auto a_partition(Case const& c) -> std::string
 template <typename K>
 auto a_stable_partition(Case const& c) -> std::string
 {
+    if (c.tr != 0 && known("C06.stable_partition.nonbool_pred")) { return SKIP; } // exclusion class: predicate result is an int other than 0/1
     V a = mk(c.a, 0);
     auto rs = std::stable_partition(a.begin(), a.end(), Pred{c.pred}) - a.begin();
     auto s  = "ret=" + num(rs) + " " + ren(a);
